@@ -105,7 +105,8 @@ def check_numeric(case, ctx):
     pd = pkg.make_pdef(case)
     nx, ny = case['nx'], case['ny']
     ctx.nontrivial = True
-    ctx.label('model:' + case['model'])
+    p.force_orthotropic_laminate = bool(case.get('force_ortho'))
+    ctx.label('model:' + case['model'], 'force_orthotropic' if case.get('force_ortho') else 'full-laminate')
     with package('analytic'):
         K = dense(p.calc_k0(silent=True))
     with package('numeric'):
@@ -278,6 +279,7 @@ def _numeric_strategy(draw, tier='quick'):
     case = draw(pkg.panel_case(models=('plate', 'cpanel'), mmax=5, max_plies=3, sub_interval=False))
     case['nx'] = max(case['m'], 4) + 1 + draw(st.integers(0, 6))
     case['ny'] = max(case['n'], 4) + 1 + draw(st.integers(0, 6))
+    case['force_ortho'] = draw(st.sampled_from([False, False, True]))
     return case
 
 
